@@ -386,10 +386,10 @@ func (e *Exec) CaseCoq(obs []Obs) string {
 				fs = append(fs, fmt.Sprintf("(%s, %s)", cStr(c.Denom), cZ(c.Amount.BigInt())))
 			}
 			evs = append(evs, "EvTx "+cList(fs)+" "+cList(ms))
-			os = append(os, "ITx "+classCoq(o.Class))
+			os = append(os, "ITx "+classCoq(o.Class)+" "+cEvents(o.Events, false))
 		case "otx":
 			evs = append(evs, "EvOTx ("+e.cMsg(ev.Msgs[0])+")")
-			os = append(os, "ITx "+classCoq(o.Class))
+			os = append(os, "ITx "+classCoq(o.Class)+" []")
 		case "end":
 			var fs []string
 			for _, f := range ev.Faults {
@@ -397,9 +397,9 @@ func (e *Exec) CaseCoq(obs []Obs) string {
 			}
 			evs = append(evs, "EvEnd "+cList(fs))
 			if o.Snap != nil {
-				os = append(os, "IEnd "+classCoq(o.Class)+" (Some "+o.Snap.coq(e)+")")
+				os = append(os, "IEnd "+classCoq(o.Class)+" "+cEvents(o.Events, true)+" (Some "+o.Snap.coq(e)+")")
 			} else {
-				os = append(os, "IEnd "+classCoq(o.Class)+" None")
+				os = append(os, "IEnd "+classCoq(o.Class)+" [] None")
 			}
 		}
 		if o.Class == "panic" && (ev.Kind == "begin" || ev.Kind == "end") {
@@ -407,4 +407,31 @@ func (e *Exec) CaseCoq(obs []Obs) string {
 		}
 	}
 	return "mkCase " + e.initCoq() + "\n  " + cList(evs) + "\n  " + cList(os)
+}
+
+// typed events as (kind, tenant, record id); see Exec/Run.v
+func cEvents(evs []string, endBlock bool) string {
+	var items []string
+	for _, x := range evs {
+		p := strings.Split(x, ":")
+		if len(p) != 3 {
+			continue
+		}
+		k := 0
+		switch p[0] {
+		case "record":
+			k = 1
+		case "cancel":
+			k = 2
+			if endBlock {
+				k = 4
+			}
+		case "settled":
+			k = 3
+		case "setrecipients":
+			k = 5
+		}
+		items = append(items, fmt.Sprintf("(%d, %s, %s)", k, p[1], p[2]))
+	}
+	return cList(items)
 }
